@@ -38,7 +38,7 @@ func scaleCheck(seed uint64) {
 		x = x*6364136223846793005 + 1442695040888963407
 		return int((x >> 33) % uint64(n))
 	}
-	kind := next(6)
+	kind := next(7)
 	defer func() {
 		if r := recover(); r != nil {
 			if _, ok := r.(*Violation); ok {
@@ -60,8 +60,149 @@ func scaleCheck(seed uint64) {
 		scaleReset(seed, next)
 	case 4:
 		scaleRegistrations(seed, next)
-	default:
+	case 5:
 		scaleVersions(seed, next)
+	default:
+		scaleWide(seed, next)
+	}
+}
+
+// scaleWide: entities with more than 64 components (the width of one mask word and of any 64-bit set of column
+// indices), whose relation component has the highest ID and so sits in a column with index 62..100. Targets die,
+// children are re-targeted one by one and in batches; relation targets and the first bytes of every component are
+// compared with a model after every step.
+func scaleWide(seed uint64, next func(int) int) {
+	w := ecs.NewWorld(4, 1+next(2))
+	u := w.Unsafe()
+	nFill := 62 + next(40)
+	var fill []ecs.ID
+	for k := 0; k < nFill; k++ {
+		fill = append(fill, ecs.TypeID(w, reflect.ArrayOf(k+1, reflect.TypeFor[int32]())))
+	}
+	relID := ecs.ComponentID[scaleRel](w)
+	mr := ecs.NewMap1[scaleRel](w)
+	type child struct {
+		e     ecs.Entity
+		n     int // has the first n filler components
+		tgt   int // -1: zero target
+		v     int32
+		alive bool
+	}
+	var targets []ecs.Entity
+	var dead []bool
+	for i := 0; i < 4; i++ {
+		targets = append(targets, w.NewEntity())
+		dead = append(dead, false)
+	}
+	var kids []*child
+	where := ""
+	verify := func() {
+		perTarget := map[int]int{}
+		for i, c := range kids {
+			if !c.alive {
+				continue
+			}
+			want := ecs.Entity{}
+			if c.tgt >= 0 {
+				want = targets[c.tgt]
+			}
+			perTarget[c.tgt]++
+			if got := u.GetRelation(c.e, relID); got != want {
+				fail("scale|target", "%s: child %d (%d components, relation column %d) has target %v, last assigned %v", where, i, c.n+1, c.n, got, want)
+			}
+			if got := mr.Get(c.e).V; got != c.v {
+				fail("scale|value", "%s: child %d: relation component holds %d, written %d", where, i, got, c.v)
+			}
+			for k := 0; k < c.n; k++ {
+				if got := *(*int32)(u.Get(c.e, fill[k])); got != c.v+int32(k) {
+					fail("scale|value", "%s: child %d: component %d of %d holds %d, written %d", where, i, k, c.n, got, c.v+int32(k))
+				}
+			}
+		}
+		for t := -1; t < len(targets); t++ {
+			if t >= 0 && dead[t] {
+				continue
+			}
+			tg := ecs.Entity{}
+			if t >= 0 {
+				tg = targets[t]
+			}
+			q := ecs.NewUnsafeFilter(w, relID).Query(ecs.RelID(relID, tg))
+			c := q.Count()
+			v := 0
+			for q.Next() {
+				v++
+			}
+			if c != perTarget[t] || v != perTarget[t] {
+				fail("scale|perTargetCount", "%s: query for target %v: Count %d, visited %d, model %d", where, tg, c, v, perTarget[t])
+			}
+		}
+	}
+	aliveTarget := func() int {
+		for try := 0; try < 20; try++ {
+			if t := next(len(targets)); !dead[t] {
+				return t
+			}
+		}
+		targets = append(targets, w.NewEntity())
+		dead = append(dead, false)
+		return len(targets) - 1
+	}
+	steps := 10 + next(10)
+	for s := 0; s < steps; s++ {
+		k := next(6)
+		if len(kids) < 3 {
+			k = 0
+		}
+		where = fmt.Sprintf("scale history seed %d (wide entities, %d filler components) step %d kind %d", seed, nFill, s, k)
+		switch k {
+		case 0, 1: // new children of a drawn width
+			n := []int{nFill, nFill, 63, 64, 65, nFill - 1}[next(6)]
+			if n > nFill {
+				n = nFill
+			}
+			t := aliveTarget()
+			for i, cnt := 0, 1+next(3); i < cnt; i++ {
+				c := &child{n: n, tgt: t, v: int32(1000*len(kids) + 7), alive: true}
+				c.e = u.NewEntityRel(append(append([]ecs.ID{}, fill[:n]...), relID), ecs.RelID(relID, targets[t]))
+				mr.Get(c.e).V = c.v
+				for j := 0; j < n; j++ {
+					*(*int32)(u.Get(c.e, fill[j])) = c.v + int32(j)
+				}
+				kids = append(kids, c)
+			}
+		case 2: // a target dies
+			t := aliveTarget()
+			w.RemoveEntity(targets[t])
+			dead[t] = true
+			for _, c := range kids {
+				if c.alive && c.tgt == t {
+					c.tgt = -1
+				}
+			}
+		case 3: // one child is re-targeted
+			c := kids[next(len(kids))]
+			if c.alive {
+				t := aliveTarget()
+				u.SetRelations(c.e, ecs.RelID(relID, targets[t]))
+				c.tgt = t
+			}
+		case 4: // all children of one target are re-targeted in a batch
+			from, to := aliveTarget(), aliveTarget()
+			mr.SetRelationsBatch(ecs.NewFilter1[scaleRel](w).Batch(ecs.RelIdx(0, targets[from])), nil, ecs.RelIdx(0, targets[to]))
+			for _, c := range kids {
+				if c.alive && c.tgt == from {
+					c.tgt = to
+				}
+			}
+		default: // a child is removed
+			c := kids[next(len(kids))]
+			if c.alive {
+				w.RemoveEntity(c.e)
+				c.alive = false
+			}
+		}
+		verify()
 	}
 }
 
@@ -361,7 +502,7 @@ func scaleRegistrations(seed uint64, next func(int) int) {
 func scaleReset(seed uint64, next func(int) int) {
 	w := ecs.NewWorld([]int{8, 1024}[next(2)])
 	m := ecs.NewMap1[scaleA](w)
-	n := []int{66000, 263000, 1049600}[next(3)] + next(3000)
+	n := []int{66000, 263000, 1049600, 2800000}[next(4)] + next(3000)
 	var old []ecs.Entity
 	i := 0
 	w.NewEntities(n/2, func(e ecs.Entity) {
